@@ -101,7 +101,7 @@ def check_refs(name, text, by_name, result, all_results):
     elif ty in ('build', 'kube', 'pod'):
         for v in refs.all_values(own, 'Network'):
             n, _, opts = v.partition(':')
-            if n.endswith('.network'):
+            if n.endswith('.network') or n.endswith('.container'):   # (joining a container's network is open to every unit type with a Network= key)
                 wanted.append(('network', n, opts))
         if ty in ('build', 'pod'):
             for v in refs.all_values(own, 'Volume'):
